@@ -548,6 +548,10 @@ func (s *Sim) zkFault(c *memConn, op int32, req []byte) string {
 		s.noteFault(key, "zk:reset_after")
 		return "reset_after"
 	}
+	if op == 2 && r.ZKResetAfterDelete > 0 && s.frac("zkdel", key) < r.ZKResetAfterDelete {
+		s.noteFault(key, "zk:reset_after")
+		return "reset_after"
+	}
 	return ""
 }
 
